@@ -320,9 +320,12 @@ def run_e2e(c, prot, rows, workdir):
         out = wd / "out"
         out.mkdir()
         try:
-            mokapot.assign_confidence(psms=[ds], scores=[np.array([r["s4"] / 4.0 for r in rows], dtype=float)],
-                                      dest_dir=out, prefixes=[None], decoys=True, deduplication=True, do_rollup=True,
-                                      proteins=prot, max_workers=1, peps_algorithm="stub", rng=c["seed"] % 1000)
+            # every third end-to-end case streams the table in small confidence chunks (2-4 rows): the protein level is won per
+            # target / decoy pair over the WHOLE peptide table, wherever chunk borders fall
+            with mk.patched(CONFIDENCE_CHUNK_SIZE=(2 + c["idx"] % 3) if c["idx"] % 3 == 2 else 10 ** 6):
+                mokapot.assign_confidence(psms=[ds], scores=[np.array([r["s4"] / 4.0 for r in rows], dtype=float)],
+                                          dest_dir=out, prefixes=[None], decoys=True, deduplication=True, do_rollup=True,
+                                          proteins=prot, max_workers=1, peps_algorithm="stub", rng=c["seed"] % 1000)
         except BaseException as e:
             if isinstance(e, KeyboardInterrupt):
                 raise
